@@ -32,6 +32,8 @@ type codecCtx struct {
 	template string // flatten | oneof | container | root | surgery (the Lean model's dispatch)
 	replay   map[string]any
 	realJSON any // the real encoder's output
+	// unknownKeys: every member key the model calls unknown somewhere in the contract-form document
+	unknownKeys []string
 }
 
 func (cc *codecCtx) msg() *ir.Message {
